@@ -98,20 +98,6 @@ end bits
 
 /-! ### exact part -/
 
-/-- the four ways a square matrix given in A'-or-A storage coordinates can act -/
-inductive Op | N | T | C | J
-deriving DecidableEq, Repr
-
-/-- the documented system in storage coordinates: SLU_NR storage holds A', so `A x` is `T` on the
-stored matrix, `A' x` is `N` and `A^H x` is the entrywise conjugate `J` -/
-def docOp (o : Opts) : Op :=
-  if o.rowStored then (match o.trans with | .N => .T | .T => .N | .C => .J)
-  else (match o.trans with | .N => .N | .T => .T | .C => .C)
-
-/-- what `gstrs(trant)` solves (dgssvx.c:488-494) -/
-def implOp (o : Opts) : Op :=
-  match (effTrans o.rowStored o.trans).1 with | .N => .N | .T => .T | .C => .C
-
 def cj (z : Q) : Q := ⟨z.re, -z.im⟩
 
 structure Sys where
